@@ -193,6 +193,14 @@ pub struct Session {
     pub closed_of: BTreeMap<String, bool>,
     pub obs_every: bool,
     pub flushes: Vec<u64>,
+    pub contenders: BTreeMap<u64, Contender>,
+}
+
+/// A C13 contender holding (or having tried to hold) the directory.
+pub enum Contender {
+    Store(RaftLog<VT>),
+    Dump(raft_log::Dump<VT>),
+    Child(std::process::Child),
 }
 
 fn ev(mut v: Value) {
@@ -234,6 +242,7 @@ impl Session {
             closed_of: BTreeMap::new(),
             obs_every: true,
             flushes: vec![],
+            contenders: BTreeMap::new(),
         }
     }
 
@@ -639,6 +648,10 @@ impl Session {
             "lock_try" => {
                 // a second contender on the same directory while (possibly) owned
                 let kind = step["kind"].as_str().unwrap_or("open").to_string();
+                // the owner's own worker must not be writing while the files are compared
+                if self.rl.is_some() {
+                    self.wait_idle();
+                }
                 let before = image::dir_digest(&self.dir);
                 let n_before = gate::worker_count();
                 let config = Arc::new(self.cfg.config(&self.dir));
@@ -667,6 +680,89 @@ impl Session {
                 let after = image::dir_digest(&self.dir);
                 ev(json!({"e": "locktry", "kind": kind, "res": res, "same": before == after,
                           "owned": self.rl.is_some()}));
+            }
+            "lk_open" => {
+                let c = step["c"].as_u64().unwrap_or(1);
+                let kind = step["kind"].as_str().unwrap_or("open").to_string();
+                let proc_ = step["proc"].as_str().unwrap_or("thread").to_string();
+                let before = image::dir_digest(&self.dir);
+                let cfg = self.cfg.clone();
+                let dir = self.dir.clone();
+                let res: String;
+                if proc_ == "child" {
+                    let exe = std::env::current_exe().unwrap();
+                    let mut ch = std::process::Command::new(exe)
+                        .args(["lockchild", &dir, &kind])
+                        .stdin(std::process::Stdio::piped())
+                        .stdout(std::process::Stdio::piped())
+                        .spawn()
+                        .unwrap();
+                    let mut line = String::new();
+                    {
+                        use std::io::BufRead;
+                        let out = ch.stdout.as_mut().unwrap();
+                        let mut br = std::io::BufReader::new(out);
+                        let _ = br.read_line(&mut line);
+                    }
+                    res = line.trim().to_string();
+                    if res == "ok" {
+                        self.contenders.insert(c, Contender::Child(ch));
+                    } else {
+                        let _ = ch.wait();
+                    }
+                } else {
+                    // a separate thread makes the attempt and hands the owner object back
+                    let n_before = gate::worker_count();
+                    let k2 = kind.clone();
+                    let h = std::thread::Builder::new()
+                        .name(format!("reader-9{}", c))
+                        .spawn(move || -> Result<Contender, String> {
+                            let config = Arc::new(cfg.config(&dir));
+                            if k2 == "dump" {
+                                match catch_unwind(AssertUnwindSafe(|| raft_log::Dump::<VT>::new(config))) {
+                                    Ok(Ok(d)) => Ok(Contender::Dump(d)),
+                                    Ok(Err(e)) => Err(err_class(&e)),
+                                    Err(p) => Err(format!("panic:{}", panic_msg(p))),
+                                }
+                            } else {
+                                match catch_unwind(AssertUnwindSafe(|| RaftLog::<VT>::open(config))) {
+                                    Ok(Ok(rl)) => Ok(Contender::Store(rl)),
+                                    Ok(Err(e)) => Err(err_class(&e)),
+                                    Err(p) => Err(format!("panic:{}", panic_msg(p))),
+                                }
+                            }
+                        })
+                        .unwrap();
+                    match h.join().unwrap() {
+                        Ok(obj) => {
+                            if matches!(obj, Contender::Store(_)) {
+                                if let Some(w) = gate::wait_new_worker(n_before) {
+                                    gate::set_free(&w);
+                                }
+                            }
+                            self.contenders.insert(c, obj);
+                            res = "ok".to_string();
+                        }
+                        Err(e) => res = e,
+                    }
+                }
+                let same = res == "ok" || before == image::dir_digest(&self.dir);
+                ev(json!({"e": "lk", "op": "open", "c": c, "kind": kind, "proc": proc_, "res": res, "same": same}));
+            }
+            "lk_drop" => {
+                let c = step["c"].as_u64().unwrap_or(1);
+                ev(json!({"e": "lk", "op": "drop", "c": c}));
+                match self.contenders.remove(&c) {
+                    Some(Contender::Child(mut ch)) => {
+                        use std::io::Write;
+                        if let Some(si) = ch.stdin.as_mut() {
+                            let _ = si.write_all(b"drop\n");
+                        }
+                        let _ = ch.wait();
+                    }
+                    Some(obj) => drop(obj),
+                    None => {}
+                }
             }
             "sleep_us" => {
                 std::thread::sleep(Duration::from_micros(step["n"].as_u64().unwrap_or(100)));
@@ -735,6 +831,17 @@ impl Session {
 
     /// End of run: release everything.
     pub fn finish(&mut self) {
+        let cs: Vec<u64> = self.contenders.keys().copied().collect();
+        for c in cs {
+            match self.contenders.remove(&c) {
+                Some(Contender::Child(mut ch)) => {
+                    let _ = ch.kill();
+                    let _ = ch.wait();
+                }
+                Some(obj) => drop(obj),
+                None => {}
+            }
+        }
         for w in self.workers.clone() {
             gate::set_free(&w);
         }
